@@ -104,6 +104,7 @@ type sim struct {
 
 	mu         sync.Mutex
 	lookupFail map[string]bool
+	stepN      int // index of the step being executed (logged on Begin so that traces align with behaviours)
 }
 
 // wrap attributes every Node lookup by provider id (the garbage collector's readiness check): the choke
@@ -183,7 +184,7 @@ func (s *sim) disarm() {
 
 // run brackets one real reconcile with Begin/End, recovering panics like controller-runtime does.
 func (s *sim) run(controller, object string, stale int, f func() error) {
-	s.w.Emit(trace.M{"e": "Begin", "controller": controller, "object": object, "stale": stale})
+	s.w.Emit(trace.M{"e": "Begin", "controller": controller, "object": object, "stale": stale, "step": s.stepN})
 	errS, panicked := "-", false
 	func() {
 		defer func() {
@@ -409,7 +410,8 @@ func RunOne(b Behaviour, tw *trace.Writer) error {
 	w.Sink = tw.Emit
 	w.EnvCreate(world.NodeClass())
 	s.restart()
-	for _, st := range b.Steps {
+	for i, st := range b.Steps {
+		s.stepN = i
 		if err := s.step(st); err != nil {
 			return err
 		}
